@@ -33,7 +33,7 @@ def model_query(case):
     return [(1 + sh + k, p) for k, p in enumerate(pos)]
 
 
-def check(case):
+def check(case, eng=None):
     from src.alignment.aligner import AlignerEngine
     from src.alignment.alignment_position import (AlignedPair, NotAlignedQueryPosition,
                                                   NotAlignedReferencePosition)
@@ -43,7 +43,8 @@ def check(case):
     tol = EPS if fl else 0
     ref = OpticalMap(7, int(case["r"][-1]) + 10 if case["r"] else 10, list(case["r"]))
     qry = OpticalMap(9, case["qlen"], list(case["q"]), shift=case["shift"])
-    eng = AlignerEngine(D)
+    if eng is None:
+        eng = AlignerEngine(D)
     out = sut(eng.align, ref, qry, start, end, case["rev"])
     rlab = [(i + 1, p) for i, p in enumerate(case["r"])]
     window_sure = [(s, p) for s, p in rlab if start - D + tol <= p <= end + D - tol]
@@ -137,6 +138,47 @@ def check(case):
     return {"nontrivial": bool(ties or coincident or atmax), "classes": cl}
 
 
+def check_history(case):
+    """one AlignerEngine used for a sequence of calls, as one worker uses it for a whole molecule and then for the
+    fragments of that molecule (same molecule id and length, fewer labels, label-number offset), on either strand and
+    at other seed offsets: every call must satisfy the oracle on its own arguments"""
+    from src.alignment.aligner import AlignerEngine
+    eng = AlignerEngine(case["maxd"])
+    info = None
+    cl = set()
+    for c in case["calls"]:
+        info = check(dict(c, maxd=case["maxd"]), eng)
+        cl.update(info["classes"])
+    kinds = [c.get("kind", "base") for c in case["calls"]]
+    return {"nontrivial": "fragment" in kinds, "classes": sorted(cl | {"calls=%d" % len(kinds)} | {"then-" + k for k in kinds[1:]})}
+
+
+@st.composite
+def history_case(draw):
+    base = draw(random_case())
+    calls = [dict(base, kind="base")]
+    for _ in range(draw(st.integers(1, 3))):
+        kind = draw(st.sampled_from(["fragment", "fragment", "strand", "start", "whole"]))
+        prev = calls[-1]
+        c = dict(prev, kind=kind)
+        if kind == "fragment":
+            n = len(base["q"])
+            a = draw(st.integers(0, n - 1))
+            b = draw(st.integers(a, n - 1))
+            c.update(q=base["q"][a:b + 1], shift=base["shift"] + a)
+            if draw(st.booleans()):
+                c["rev"] = base["rev"]
+        elif kind == "strand":
+            c["rev"] = not prev["rev"]
+        elif kind == "start":
+            d = draw(st.integers(-3, 3)) * max(1, base["maxd"])
+            c.update(start=prev["start"] + d, end=prev["end"] + d)
+        else:
+            c.update(q=base["q"], shift=base["shift"])
+        calls.append(c)
+    return {"maxd": base["maxd"], "calls": calls}
+
+
 def enum_lattice(rmax, rn, qmax, qn):
     def gen(shard, nshards):
         k = 0
@@ -213,6 +255,9 @@ def subchecks(tier):
             describe="integer and one-decimal coordinates with planted boundary labels",
             required_classes=("tie", "coincident", "at-boundary", "empty-window", "rev", "shift")),
     ]
+    subs.append(Sub("engine-history", "hyp", check_history, strategy=history_case, examples=12000 if q else 300000, shrink_budget=1500,
+                    describe="one engine instance reused for a whole molecule, its fragments, the other strand and other seed offsets",
+                    required_classes=("then-fragment", "then-strand")))
     if not q:
         subs.append(fuzz_variant(next(s for s in subs if s.name == "random"), 80000))
     return subs
